@@ -632,10 +632,9 @@ class TrigTime:
             skip = True
             if match1[1] in cls.dow2int:
                 dow = cls.dow2int[match1[1]]
-                if dow >= (now.isoweekday() % 7):
-                    day_offset = dow - (now.isoweekday() % 7)
-                else:
-                    day_offset = 7 + dow - (now.isoweekday() % 7)
+                # the next such day on or after today; a day_offset from the caller (the time on
+                # that day has passed, or is over a week ahead) moves it by whole weeks
+                day_offset = (dow - now.isoweekday()) % 7 + 7 * -(-day_offset // 7)
                 fixed_date = True
             elif match1[1] == "today":
                 day_offset = 0
